@@ -73,14 +73,16 @@ pub enum Cmd {
     /// by a line feed and an administrative replication command: like every election command it is for
     /// administrators (the nodes), and the text after the line feed must never be executed on any node
     ElectionOtherWithLineFeed,
+    /// `resolve` naming another database (one the session never presented a token for) than the selected one
+    ResolveNamingOtherDb,
 }
 
-pub const ALL_CMDS: [Cmd; 37] = [
+pub const ALL_CMDS: [Cmd; 38] = [
     Cmd::Get, Cmd::GetSafe, Cmd::Set, Cmd::SetSafe, Cmd::Remove, Cmd::Increment, Cmd::Watch, Cmd::Keys, Cmd::Arbiter, Cmd::Resolve,
     Cmd::CreateDb, Cmd::Snapshot, Cmd::SnapshotNamed, Cmd::CreateUser, Cmd::SetPermissions, Cmd::ClusterState, Cmd::MetricsState,
     Cmd::DebugListDbs, Cmd::DebugPendingOps, Cmd::Join, Cmd::Leave, Cmd::SetPrimary, Cmd::SetSecoundary, Cmd::ElectionWin,
     Cmd::ElectionCandidate, Cmd::Replicate, Cmd::ReplicateRemove, Cmd::ReplicateIncrement, Cmd::ReplicateSnapshot, Cmd::ReplicateJoin,
-    Cmd::ReplicateLeave, Cmd::ReplicateSince, Cmd::Ack, Cmd::RpSet, Cmd::ListCommands, Cmd::SetWithLineFeed, Cmd::ElectionOtherWithLineFeed,
+    Cmd::ReplicateLeave, Cmd::ReplicateSince, Cmd::Ack, Cmd::RpSet, Cmd::ListCommands, Cmd::SetWithLineFeed, Cmd::ElectionOtherWithLineFeed, Cmd::ResolveNamingOtherDb,
 ];
 
 #[derive(Clone, Debug, Serialize, Deserialize, PartialEq)]
@@ -265,6 +267,7 @@ fn line(cmd: &Cmd, key: &str, uniq: u32) -> String {
         Cmd::RpSet => format!("rp 5 set {} viarp{}", key, uniq),
         Cmd::ListCommands => "list-commands".to_string(),
         Cmd::SetWithLineFeed => format!("set {} lf{}\nreplicate d $$sec 99 injected{}", if key.starts_with("$$") { "ka" } else { key }, uniq, uniq),
+        Cmd::ResolveNamingOtherDb => format!("resolve 78 d2 {} 3 forcedother{}", key, uniq),
         Cmd::ElectionOtherWithLineFeed => format!("election alive 10.9.9.9:3014\nreplicate d $$sec 99 injected{}", uniq),
     }
 }
@@ -283,7 +286,7 @@ enum Need {
 fn need(cmd: &Cmd) -> Need {
     match cmd {
         Cmd::Get | Cmd::GetSafe | Cmd::Watch => Need::Data('r'),
-        Cmd::Set | Cmd::SetSafe | Cmd::Resolve | Cmd::SetWithLineFeed => Need::Data('w'),
+        Cmd::Set | Cmd::SetSafe | Cmd::Resolve | Cmd::SetWithLineFeed | Cmd::ResolveNamingOtherDb => Need::Data('w'),
         Cmd::Increment => Need::Data('i'),
         Cmd::Remove => Need::Data('x'),
         Cmd::Keys => Need::Selected,
@@ -327,7 +330,7 @@ fn model_allows(cmd: &Cmd, key: &str, is_admin: bool, selected: &Option<Option<S
     match need(cmd) {
         Need::Nothing => true,
         // an administrator's resolve names its database itself
-        Need::Data(_) if *cmd == Cmd::Resolve && is_admin => true,
+        Need::Data(_) if matches!(cmd, Cmd::Resolve | Cmd::ResolveNamingOtherDb) && is_admin => true,
         Need::Admin => is_admin && (!needs_selection_too || selected.is_some()),
         Need::Selected => selected.is_some(),
         Need::Data(kind) => match selected {
@@ -619,6 +622,13 @@ fn execute(prog: Program, cluster: bool) -> Outcome {
     for (k, v) in [("ka", "1"), ("kb", "2"), ("xa", "3"), ("zz", "4"), ("$$sec", "5")] {
         admin.exec(&format!("set {} {}", k, v));
     }
+    // a second database the session under test never gets a token for
+    admin.exec("create-db d2 tok2 none");
+    admin.exec("use-db d2 tok2");
+    for (k, v) in [("ka", "o1"), ("kb", "o2"), ("xa", "o3"), ("zz", "o4")] {
+        admin.exec(&format!("set {} {}", k, v));
+    }
+    admin.exec("use-db d tok");
     admin.exec("create-user u1 pw1");
     let mut perms = prog.initial_permissions.clone();
     if let Some(p) = perms.as_ref() {
@@ -732,6 +742,27 @@ fn execute(prog: Program, cluster: bool) -> Outcome {
                 let l = line(cmd, key, uniq);
                 let allowed = model_allows(cmd, key, is_admin, &selected, &perms);
                 let cred = cred_label(is_admin, &selected, &perms);
+                if *cmd == Cmd::ResolveNamingOtherDb && !is_admin {
+                    // whatever the command does to the selected database (the model above), the database it names
+                    // is not this session's: it must not change on any node
+                    let d2_of = |d: &Arc<Databases>| dump_node(d).get("d2").map(|(_, keys)| keys.clone());
+                    let before = (d2_of(&own), other.as_ref().map(|d| d2_of(d)));
+                    let r = s.exec(&l);
+                    sleep_ms(5);
+                    if cluster {
+                        w.settle(100, 2_000);
+                    }
+                    let after = (d2_of(&own), other.as_ref().map(|d| d2_of(d)));
+                    out.denied_checked += 1;
+                    if before != after {
+                        out.violations.push(Violation::new(
+                            "acted-on-unselected-database",
+                            format!("{:?}:{}{}", cmd, cred, site),
+                            format!("step #{} `{}` with credential {} (selected database d at most; reply {:?}): database d2 changed, this node {} / other node {}", i, l, cred, r.resp, before.0 != after.0, before.1 != after.1),
+                        ));
+                    }
+                    continue;
+                }
                 if allowed {
                     if disruptive(cmd) {
                         continue;
